@@ -270,6 +270,14 @@ def check_class(mod: CF.Module, classes: list[dict], k: int, lab: Labels, first:
             if not sort_keys:
                 ch = inst.children
                 require(len(ch) == len(exp_nodes) and all(g is e[0] for g, e in zip(ch, exp_nodes)), "children", f"C{k} variant {variant}")
+                # the list belongs to the caller: changing it changes nothing for anybody else
+                ch.append(inst)
+                ch.reverse()
+                ch2 = inst.children
+                require(len(ch2) == len(exp_nodes) and all(g is e[0] for g, e in zip(ch2, exp_nodes)), "children-after-caller-changed-its-list",
+                        f"C{k} variant {variant}: {len(ch2)} nodes, expected {len(exp_nodes)}")
+                other_leaf = mod.get("NodeB")(n=77)
+                require(other_leaf.children == [], "children-after-caller-changed-its-list", "another (childless) node")
         pd = inst.to_properties_dict()
         require(list(pd.keys()) == [f["name"] for f in props] and all(pd[f["name"]] is val(f) for f in props),
                 "to_properties_dict", f"C{k} variant {variant}: {list(pd.keys())}")
